@@ -7,20 +7,20 @@ Import ListNotations.
 From TV Require Import Lib.Obs Lib.C21_Utf8 Lib.C21_Pct C47.Model.
 Local Open Scope N_scope.
 
-(* input: (tornado.version,
-           (https, remote_ip, http/1.1?, method, uri, header lines, body),
+(* one request: (tornado.version,
+           (https, xheaders, remote_ip, http/1.1?, method, uri, header lines, body),
            (start_response args if called, write() calls, returned chunks)) *)
-Definition input : Type :=
-  (list N * (bool * list N * bool * list N * list N * list (list N * list N) * list N)
+Definition one_input : Type :=
+  (list N * (bool * bool * list N * bool * list N * list N * list (list N * list N) * list N)
    * (option (list N * list (list N * list N)) * list (list N) * list (list N)))%type.
 
-Definition req_of (c : input) : request :=
-  let '(_, (https, ip, v11, m, u, hs, b), _) := c in
-  {| r_https := https; r_remote_ip := ip; r_v11 := v11; r_method := m; r_uri := u;
+Definition req_of (c : one_input) : request :=
+  let '(_, (https, xh, ip, v11, m, u, hs, b), _) := c in
+  {| r_https := https; r_xheaders := xh; r_remote_ip := ip; r_v11 := v11; r_method := m; r_uri := u;
      r_headers := hs; r_body := b |}.
-Definition app_of (c : input) : app_out :=
+Definition app_of (c : one_input) : app_out :=
   let '(_, _, (st, wr, ch)) := c in {| a_start := st; a_written := wr; a_chunks := ch |}.
-Definition ver_of (c : input) : text := let '(v, _, _) := c in v.
+Definition ver_of (c : one_input) : text := let '(v, _, _) := c in v.
 
 (* ---------- observables ---------- *)
 Definition enc_pair (nv : text * text) : obs := OList [OBytes (fst nv); OBytes (snd nv)].
@@ -43,7 +43,17 @@ Definition enc_outcome (o : outcome) : obs :=
   | Served e w => OList [OTag "Served"; enc_env e; enc_wire w]
   end.
 
-Definition run_case (c : input) : obs := enc_outcome (serve (ver_of c) (req_of c) (app_of c)).
+Definition run_one (c : one_input) : obs := enc_outcome (serve (ver_of c) (req_of c) (app_of c)).
+
+(* a correspondence case: tornado.version and the requests served, in order, by ONE WSGIContainer *)
+Definition step_input : Type :=
+  ((bool * bool * list N * bool * list N * list N * list (list N * list N) * list N)
+   * (option (list N * list (list N * list N)) * list (list N) * list (list N)))%type.
+Definition input : Type := (list N * list step_input)%type.
+Definition one_of (ver : list N) (s : step_input) : one_input := (ver, fst s, snd s).
+Definition steps_of (c : input) : list (request * app_out) :=
+  map (fun s => (req_of (one_of (fst c) s), app_of (one_of (fst c) s))) (snd c).
+Definition run_case (c : input) : obs := OList (map enc_outcome (container_run (fst c) tt (steps_of c))).
 
 (* ---------- decoding an observable ---------- *)
 Fixpoint dec_pairs (l : list obs) : option (list (text * text)) :=
@@ -142,15 +152,23 @@ Definition check_headers (hs : list (text * text)) (e : env) : bool :=
              | None => false
              end) hs.
 
+(* request.protocol, read off the header lines (HTTPServer(xheaders=True): X-Scheme, else
+   X-Forwarded-Proto, last comma-separated entry, if it is "http" or "https") *)
+Definition joined (n : text) (hs : list (text * text)) : option text :=
+  match values_of n hs with [] => None | vs => Some (join [44] vs) end.
+Definition https_spec (r : request) : bool :=
+  let hs := map strip_value (r_headers r) in
+  effective_https (r_xheaders r) (r_https r) (joined (t "x-scheme") hs) (joined (t "x-forwarded-proto") hs).
+
 Definition check_env (r : request) (a : accepted) (e : wenv) : bool :=
   text_eqb (e_method e) (r_method r) &&
   text_eqb (e_path e) (unquote_bytes (q_path a)) &&        (* the percent-decoded path bytes *)
   text_eqb (e_query e) (q_query a) &&
   text_eqb (e_remote e) (r_remote_ip r) &&
   text_eqb (e_protocol e) (if r_v11 r then t "HTTP/1.1" else t "HTTP/1.0") &&
-  text_eqb (e_scheme e) (if r_https r then t "https" else t "http") &&
+  text_eqb (e_scheme e) (if https_spec r then t "https" else t "http") &&
   text_eqb (e_input e) (r_body r) &&
-  check_host (r_https r) (q_host a) (e_name e) (e_port e) &&
+  check_host (https_spec r) (q_host a) (e_name e) (e_port e) &&
   check_headers (map strip_value (r_headers r)) (e_extra e).
 
 (* ---- the application's output is what PEP 3333 and HTTP allow ---- *)
@@ -220,8 +238,19 @@ Definition check_outcome (version : text) (r : request) (o : app_out) (out : out
       end
   end.
 
-Definition check_case (c : input) (o : obs) : bool :=
+Definition check_one (c : one_input) (o : obs) : bool :=
   match dec_outcome o with
   | Some out => check_outcome (ver_of c) (req_of c) (app_of c) out
   | None => false
   end.
+
+(* every request of the sequence is judged on its own: what it is handed and what it is answered
+   depend on that request alone, whatever the container served before *)
+Fixpoint check_all (ver : list N) (steps : list step_input) (os : list obs) : bool :=
+  match steps, os with
+  | [], [] => true
+  | s :: steps', o :: os' => check_one (one_of ver s) o && check_all ver steps' os'
+  | _, _ => false
+  end.
+Definition check_case (c : input) (o : obs) : bool :=
+  match o with OList os => check_all (fst c) (snd c) os | _ => false end.
